@@ -40,7 +40,11 @@ RULE = ('ALL 576 pairs of terms of depth <= 2 over {a, b, X0, X1, f/1, g/2} exha
         '(variable-variable, variable-constant, variable-compound and compound-compound pairs), events create / next / close / drop, '
         'started generators LIFO, creation at any time, plus ALL schedules "create g0, create g1, start them in either order" over a '
         'fixed set of 10 small pairs on {X, Y} (thorough tier: all triples and orders). Non-trivial: some generator is started when the '
-        'bindings differ from those at its creation and it yields. Distinct by hash of the case.')
+        'bindings differ from those at its creation and it yields. Distinct by hash of the case. Round 5 (style held / reuse): schedules in which the '
+        'caller HOLDS its term objects - every compound (sub)term of the case is built once and the same engine object is handed to unify() again '
+        'and again, in rounds in which the variables inside it are bound to constants / small terms / each other, the held terms are unified with '
+        'each other, with nearly ground look-alikes and with variables, and the bindings are taken down again (LIFO); the random schedules once '
+        'more with terms built once.')
 TRUSTED_BASE = [
     'Coq 8.16.1 kernel (coqc); vm_compute for the in-Coq evaluation of the model on every case; no native_compute',
     'no axioms: all C02 theorems are closed under the global context',
@@ -89,6 +93,12 @@ def gen(rng, tier):
     cases.extend(exhaustive_pairs(tier))
     cases.extend(S.gen_case(rng) for _ in range(900 if tier == 'quick' else 10000))
     cases.extend(S.exhaustive(tier))
+    # round 5: term objects held by the caller and unified again and again while the bindings of their variables come and go
+    cases.extend(S.gen_held_case(rng) for _ in range(400 if tier == 'quick' else 5000))
+    # ... and the random schedules once more with every compound term of a case built only once
+    for c in [S.gen_case(rng) for _ in range(200 if tier == 'quick' else 2500)]:
+        c['reuse'] = True
+        cases.append(c)
     return cases
 
 def _shape(k, c1, c2, c3, rng=None):
